@@ -87,8 +87,10 @@ def gen_leaf(rng, ishape, preserve=False, allow_unknown=True):
     if cls == "MultiplyFull":
         return leaf("Multiply", ishape, ishape, mult=arr(rng, ishape), conj=rng.random() < 0.3)
     if cls == "MultiplyScalar":
-        a = rng.choice([[1, 0], [2.5, 0], [0.5, -1.5], [0, 1], [-1, 0.25]])
-        return leaf("Multiply", ishape, ishape, scalar=a, conj=rng.random() < 0.3)
+        a = rng.choice([[1, 0], [2.5, 0], [0.5, -1.5], [0, 1], [-1, 0.25], [2, 0], [0, 0]])
+        # python scalar, numpy scalar (single or double) or 0-d array
+        return leaf("Multiply", ishape, ishape, scalar=a, conj=rng.random() < 0.3,
+                    scalar_type=rng.choice(["python", "python", "np64", "np32", "zero_d"]))
     if cls == "MultiplyBcast":
         # mult has ones on some axes, or extra leading axis
         mode = rng.choice(["ones", "lead"])
